@@ -2,9 +2,10 @@
 
 ALL_TYPES = ["kmer64", "kmer48", "kmer40", "kmer32", "kmer31", "kmer30", "kmer24", "kmer20", "kmer16",
              "kmer15", "kmer14", "kmer12", "kmer10", "kmer8", "kmer6", "kmer5", "kmer4", "kmer3", "kmer2"]
-# one representative per (storage width x full/partial x odd K)
-QUICK_TYPES = ["kmer64", "kmer48", "kmer32", "kmer31", "kmer20", "kmer16", "kmer15", "kmer8", "kmer5", "kmer4",
-               "kmer3"]
+# one representative per (storage width x full/partial x odd K), plus K = 2 mod 4 (kmer6) and the smallest type (kmer2)
+# - both added after the self-test showed quick-tier misses for edits that only affect those types
+QUICK_TYPES = ["kmer64", "kmer48", "kmer32", "kmer31", "kmer20", "kmer16", "kmer15", "kmer8", "kmer6", "kmer5", "kmer4",
+               "kmer3", "kmer2"]
 K_OF = {t: int(t[4:]) for t in ALL_TYPES}
 
 
@@ -181,10 +182,11 @@ PROPS["C16"] = {
     "kani": lambda tier: tables(TABLES_ALL) + ["bitops_avx2::verif::a_block"],
     "verus": [],
     "bounded": lambda tier: [("dna_string::verif::d_from_acgt_bytes_b_31", "from_acgt_bytes on 31 bytes, vector path available and not (feature detection nondeterministic)"),
-                             ("dna_string::verif::d_to_bytes_b_33", "to_ascii_vec on 33 bases")],
+                             ("dna_string::verif::d_to_bytes_b_33", "to_ascii_vec on 33 bases"),
+                             ("dna_string::verif::d_hashn_concrete", "from_acgt_bytes_hashn on two concrete 5-byte reads (a single-input check, not a proof)")],
     "design_ref": "DESIGN.md §6 C16",
     "undecided": ["from_acgt_bytes chunk loop / tail composition for every length and to_ascii_vec round trip: fixed-length bounded stand-ins only",
-                  "from_dna_only_string, from_acgt_bytes_hashn: no tractable harness (str/char iteration and SipHash exhaust CBMC), not decided"],
+                  "from_dna_only_string: no tractable harness (str/char iteration exhausts CBMC), not decided; from_acgt_bytes_hashn: only a concrete two-read check (symbolic SipHash is intractable)"],
     "trust": ["the two AVX2 intrinsic models (_mm256_shuffle_epi8, _mm256_testc_si256) follow the Intel SDM; validated natively against the CPU by `debruijn-replay --validate-avx-models`, not proved"],
     "level_text": "The six byte tables are proved for all 256 byte values and the vector path (convert_bases + pack_32_bases, real code incl. unsafe loadu) is proved equal to the scalar path on ALL 256^32 blocks, lane by lane, with the valid flag exact (Kani, complete).",
     "level_note": "Trusted: Kani/CBMC; two intrinsic models (Kani cannot translate pshufb / vptest). The chunking loop of from_acgt_bytes is not under an unbounded contract (undecided_clauses).",
@@ -316,14 +318,15 @@ PROPS["C09"] = {
 PROPS["C08"] = {
     "title": "Shard assignment is a pure, strand-symmetric function of the k-mer",
     "kani": lambda tier: kfam(["k_min_rc", "k_to_u64", "k_rc"], tier, 2, 8) + exts(["x_from_slice_bounds"]) + lmer(["l_from_slice"], tier),
-    "verus": [("scan", r"^(Scanner::(scan|lemma_same_bucket|lemma_same_bucket_rc|lemma_min_over_kmer|lemma_result|lemma_iv_mid|lemma_iv_last|lemma_pair)|Exts::from_slice_bounds|lemma_sub_window|lemma_sub_window_rc|lemma_flank_bits)$")],
+    "verus": [("scan", r"^(Scanner::(scan|lemma_same_bucket|lemma_same_bucket_rc|lemma_min_over_kmer|lemma_result|lemma_iv_mid|lemma_iv_last|lemma_pair)|Exts::from_slice_bounds|lemma_sub_window|lemma_sub_window_rc|lemma_flank_bits)$"),
+              ("mspscore", None)],
     "bounded": lambda tier: [],
     "design_ref": "DESIGN.md §6 C08",
     "undecided": [
         "msp_sequence itself (unwrap_or_else, closure score over the permutation table, into_iter().map().collect(), V::from_slice per piece): the composition 'each piece is the exact substring at (start, len)' is not under contract; its ingredients are (scan intervals: C07; flank extensions: from_slice_bounds; Lmer::from_slice: bounded Kani)",
-        "that a permutation-based score is injective on (rc-)classes and strand symmetric is a hypothesis of the lemmas (true of `perm[rank x]` / `min(perm[rank x], perm[rank rc x])` for a permutation `perm`; the real closure is not extracted)"],
+        "the glue between the pieces (msp_sequence passes exactly this closure to Scanner::new; the default permutation 0..4^p is a permutation) is by inspection, not a discharged obligation"],
     "trust": VERUS_TRUST + [SEAM_NOTE],
-    "level_text": "Proved as lemmas over the verified contract of the real Scanner::scan (C07): for two scans - of any two reads - whose score functions agree and identify p-mers up to a class, two occurrences of the same k-mer (lemma_same_bucket) or an occurrence and a reverse-complement occurrence under a strand-symmetric score (lemma_same_bucket_rc) receive minimizers of the same class, hence the same bucket id (bucket = rank of the canonical minimizer; min_rc / to_u64 proved by Kani for all p-mer values). Exts::from_slice_bounds is proved to return exactly the read's two flanking bases and none at a read end, for every slice length (Verus, unbounded, real body).",
+    "level_text": "Proved as lemmas over the verified contract of the real Scanner::scan (C07): for two scans - of any two reads - whose score functions agree and identify p-mers up to a class, two occurrences of the same k-mer (lemma_same_bucket) or an occurrence and a reverse-complement occurrence under a strand-symmetric score (lemma_same_bucket_rc) receive minimizers of the same class, hence the same bucket id (bucket = rank of the canonical minimizer; min_rc / to_u64 proved by Kani for all p-mer values). Exts::from_slice_bounds is proved to return exactly the read's two flanking bases and none at a read end, for every slice length (Verus, unbounded, real body). The REAL score closure of msp_sequence (statement extracted by rule R15) is proved to compute perm[rank x] resp. min(perm[rank x], perm[rank rc x]), and two lemmas show that such a score over an injective table is strand symmetric and identifies p-mers up to reverse complement - the hypotheses of the bucket lemmas.",
     "level_note": "Partial claim (see undecided_clauses): the msp_sequence wrapper is not under contract. Trusted: Verus/Z3, extractor rules, the V<->K seam.",
 }
 
